@@ -3,4 +3,7 @@ def setup(chk):
     chk.add_tu('C02h.cpp')   # std::vector / std::basic_string destinations incl. the allocation bound
     chk.extra_evidence.update({'bounds_text': 'every core-pool destination type x enumerated input length N (quick: up to 5 lengths per type, N <= 12 / 10 / 8 / 2 for flat / scalar / table / nested-table types; thorough: every N up to 16 / 12) x readers {Pedantic, Buffer, Bounded over each}: all 256^N byte strings from an exact-size input object; heap destinations vector<u8>, vector<u16>, string, u16string (thorough: vector<S0>) at N in {0,3,4,6,7,10,11} with CBMC malloc: memory safety, no throw, peak live heap bytes <= 2N+64, release on destruction', 'outside_bounds': ['std::map / std::unordered_map', 'NOP_UNBOUNDED_BUFFER structures (excluded by the property)', 'inputs longer than the enumerated N']})
     if chk.tier == 'thorough':
-        chk.add_tu('C02t.cpp')
+        import glob, os
+        here = os.path.dirname(os.path.dirname(os.path.abspath(__file__)))
+        for f in sorted(glob.glob(os.path.join(here, 'h/C02t*.cpp'))):
+            chk.add_tu(os.path.basename(f))
